@@ -152,6 +152,7 @@ def run(ctx):
     ctx.guard("C13.R7", "mutation components", lambda: r7_mutation_components(ctx))
     ctx.guard("C13.R8", "recombination operators", lambda: r8_recombination_operators(ctx))
     ctx.guard("C13.R9", "documented parameter domains", lambda: r9_parameter_domains(ctx))
+    ctx.guard("C13.R10", "differential-evolution mutation", lambda: r10_de_mutation(ctx))
 
 
 # ------------------------------------------------------------------ R2: the in-place permutation helpers
@@ -1057,3 +1058,64 @@ def r8_recombination_operators(ctx):
                   detail="%d draw sequences" % cnt, loc=fn.loc())
         ctx.floor("C13.R8", "%s draw sequences" % name, cnt, 20)
     ctx.count("recombination_draw_sequences", total)
+
+
+def r10_de_mutation(ctx):
+    """K6 with exact floats on DEMutation::execute (with utils::with_index inlined): for y in {1, 2}, 0..2 groups of 2y+1
+    two-dimensional solutions and F = 0.5: the population becomes one mutant per group, in order, each the group's base plus
+    F times the sum of the pairwise differences of the group's other members (base + F*(s1 - s2) [+ F*(s3 - s4)]), of the
+    base's dimension and unevaluated; the other members are consumed.  A malformed population is an error that changes nothing."""
+    from absint import Interp, Sym, Agg, TOP, some, std_oracle, chain
+    from collmodel import coll_oracle, install, Vec
+    from c10 import mk_oracle
+    import c07
+    F = ctx.facts
+    adt = "mahf::components::mutation::de::DEMutation"
+    fn = F.method(adt, "execute", "mahf::components::Component")
+    yi, fi = F.field_index(adt, "y"), F.field_index(adt, "f")
+    SO = "mahf::problems::objective::single::SingleObjective"
+    bad = []
+    n = 0
+    for y in (1, 2):
+        size = 2 * y + 1
+        for count in (0, size, 2 * size, size + 1, size - 1):
+            def ind(vid):
+                return Agg("adt", c07.IND, "Individual", [Vec(vid), some(Agg("adt", SO, "SingleObjective", [1.0]))])
+            table = {"mahf::state::State::populations_mut": Sym("populations"), "mahf::state::common::Populations::current_mut": Vec("cur", borrowed=True)}
+            it = install(Interp(fn.body, chain(mk_oracle(table), coll_oracle, std_oracle), [Sym("self", {yi: y, fi: 0.5}), Sym("problem"), Sym("state")], facts=F,
+                                inline=lambda k: c07.INLINE(k) or k.startswith("mahf::utils::"), max_visits=30, max_paths=50))
+            heap = {"cur": tuple(ind("s%d" % i) for i in range(count))}
+            sols = {}
+            for i in range(count):
+                sols[i] = (float((i + 1) * (i + 2)), float(10 * (i + 1) + i * i))
+                heap["s%d" % i] = sols[i]
+            it.init_state = {"heap": heap, "next_vec": 0}
+            n += 1
+            label = (y, count)
+            for p in it.run():
+                h = p.mstate["heap"]
+                if count % size != 0:
+                    untouched = all(tuple(h.get("s%d" % i, ())) == sols[i] for i in range(count)) and len(h.get("cur", ())) == count
+                    if p.end != "return" or not (isinstance(p.ret, Agg) and p.ret.variant == "Err") or not untouched:
+                        bad.append(label + ("is not rejected unchanged (%s %s)" % (p.end, p.ret),))
+                    continue
+                if p.end != "return" or not (isinstance(p.ret, Agg) and p.ret.variant == "Ok"):
+                    bad.append(label + ("does not complete (%s %s)" % (p.end, p.ret),))
+                    continue
+                cur = h.get("cur", ())
+                want = []
+                for g in range(count // size):
+                    base = list(sols[g * size])
+                    for k in range(y):
+                        a, b = sols[g * size + 1 + 2 * k], sols[g * size + 2 + 2 * k]
+                        base = [base[d] + 0.5 * (a[d] - b[d]) for d in range(2)]
+                    want.append(tuple(base))
+                got = []
+                for x in cur:
+                    v = x.fields[0] if isinstance(x, Agg) and x.name == c07.IND else None
+                    evaluated = isinstance(x, Agg) and isinstance(x.fields[1], Agg) and x.fields[1].variant == "Some"
+                    got.append((tuple(h.get(v.vid, ())) if isinstance(v, Vec) else None, evaluated))
+                if [g_[0] for g_ in got] != want or any(e for _, e in got):
+                    bad.append(label + ("leaves %s; expected the unevaluated mutants %s (base + F * sum of pair differences, one per group)" % (got, want),))
+    ctx.check(not bad, "C13.R10", fn.key, "one-mutant-per-group", "y = %s, population of %s: DEMutation %s" % (bad[0] if bad else ("", "", "")), detail="%d scenarios" % n, loc=fn.loc())
+    ctx.count("de_mutation_scenarios", n)
